@@ -77,3 +77,57 @@ func VerifPeerState(dialAddr string) (fails, conns int, unhealthy, ok bool) {
 
 // VerifAvailable exposes Upstream.available.
 func VerifAvailable(u *Upstream) bool { return u.available() }
+
+// VerifPeerAddr returns the dial address of a peer hook object ("" if it is none).
+func VerifPeerAddr(obj any) string {
+	if p, ok := obj.(*peer); ok && p != nil {
+		return p.address.JoinHostPort(0)
+	}
+	return ""
+}
+
+// VerifUpstreamName returns the dial list of an upstream hook object.
+func VerifUpstreamName(obj any) string {
+	if u, ok := obj.(*Upstream); ok && u != nil {
+		return u.String()
+	}
+	return ""
+}
+
+// VerifPeerCounters reads the counters of a peer hook object.
+func VerifPeerCounters(obj any) (fails, conns int, unhealthy bool) {
+	if p, ok := obj.(*peer); ok && p != nil {
+		return int(atomic.LoadInt32(&p.fails)), int(atomic.LoadInt32(&p.numConns)), atomic.LoadInt32(&p.unhealthy) != 0
+	}
+	return 0, 0, false
+}
+
+// VerifUpstreamsAvailable reports availability of each upstream of a provisioned handler.
+func VerifUpstreamsAvailable(h *Handler) []bool {
+	out := make([]bool, len(h.Upstreams))
+	for i, u := range h.Upstreams {
+		out[i] = u.available()
+	}
+	return out
+}
+
+// VerifHandlerCounters reads fails / conns / unhealthy of every peer of a provisioned handler.
+func VerifHandlerCounters(h *Handler) (fails, conns [][]int, unhealthy [][]bool) {
+	for _, u := range h.Upstreams {
+		var f, c []int
+		var uh []bool
+		for _, p := range u.peers {
+			f = append(f, int(atomic.LoadInt32(&p.fails)))
+			c = append(c, int(atomic.LoadInt32(&p.numConns)))
+			uh = append(uh, atomic.LoadInt32(&p.unhealthy) != 0)
+		}
+		fails, conns, unhealthy = append(fails, f), append(conns, c), append(unhealthy, uh)
+	}
+	return
+}
+
+// VerifHandlerOf returns the handler behind a hook object (nil if it is none).
+func VerifHandlerOf(obj any) *Handler {
+	h, _ := obj.(*Handler)
+	return h
+}
